@@ -43,7 +43,7 @@ pub fn id_tile(id: u64) -> (u8, u32, u32) { let mut z = 0u8; while z < 31 && zoo
 
 // ---------------------------------------------------------------- versatiles v02
 #[derive(Debug, Clone)]
-pub struct BlockDump { pub z: u8, pub bx: u32, pub by: u32, pub x0: u8, pub y0: u8, pub x1: u8, pub y1: u8, pub occ: String }
+pub struct BlockDump { pub z: u8, pub bx: u32, pub by: u32, pub x0: u8, pub y0: u8, pub x1: u8, pub y1: u8, pub occ: String, pub entries: Vec<(u64, u64)> }
 pub struct VtDecoded { pub format: u8, pub compression: u8, pub tiles: TileMap, pub blocks: Vec<BlockDump>, pub meta: Vec<u8> }
 pub fn dec_versatiles(f: &[u8]) -> Result<VtDecoded> {
 	ensure!(f.len() >= 66 && &f[0..14] == b"versatiles_v02", "magic");
@@ -63,14 +63,16 @@ pub fn dec_versatiles(f: &[u8]) -> Result<VtDecoded> {
 		let (w, h) = ((x1 - x0) as usize + 1, (y1 - y0) as usize + 1);
 		ensure!(ti.len() == 12 * w * h, "tile index length {} for {}x{}", ti.len(), w, h);
 		let mut occ = String::new();
+		let mut entries = vec![];
 		for (i, e) in ti.chunks(12).enumerate() {
 			let (to, tl) = (be(&e[0..8]), be(&e[8..12]));
+			entries.push((to, tl));
 			occ.push(if tl > 0 { '1' } else { '0' });
 			if tl == 0 { continue; }
 			let (x, y) = (bx * 256 + x0 as u32 + (i % w) as u32, by * 256 + y0 as u32 + (i / w) as u32);
 			tiles.insert((z, x, y), sl(f, off + to, tl)?.to_vec());
 		}
-		blocks.push(BlockDump { z, bx, by, x0, y0, x1, y1, occ });
+		blocks.push(BlockDump { z, bx, by, x0, y0, x1, y1, occ, entries });
 	}
 	Ok(VtDecoded { format, compression, tiles, blocks, meta })
 }
